@@ -110,6 +110,15 @@ func (g *SymbolGraph) RemoveEdge(from, to graphs.SymbolKey, kind *SymbolEdgeKind
 		if len(inner) == 0 {
 			delete(g.edges, fromBase)
 		}
+
+		// deps/revDeps track whether the two nodes are related at all, regardless of kind -
+		// while an edge of another kind still links the pair, the relation stands
+		suffix := "::" + toBase
+		for k := range inner {
+			if strings.HasSuffix(k, suffix) {
+				return
+			}
+		}
 	}
 
 	if depsMap, ok := g.deps[fromBase]; ok {
